@@ -256,3 +256,42 @@ fn c04_block_verify_tc() { block_verify(false, true) }
 #[kani::proof]
 #[kani::unwind(10)]
 fn c04_block_verify_genesis_tc() { block_verify(true, true) }
+
+/// C20 (store / sync-path encoding): a Block with one payload digest, a one-vote QC and a one-entry TC survives the
+/// serialize -> deserialize round trip (wire format of the bincode shim: same layout as bincode 1.3 default options; the
+/// REAL bincode is exercised on votes and timeouts in messages_r.rs) with every field and its digest intact.
+#[kani::proof]
+#[kani::unwind(12)]
+fn c20_block_roundtrip_l() {
+    let a: u8 = vwit::any_u8();
+    let s: u8 = vwit::any_u8();
+    vwit::assume(a < 5 && s < 5);
+    let mut b = Block {
+        qc: QC { hash: any_digest(), round: vwit::any_u64(), votes: Vec::new() },
+        tc: None,
+        author: key(a),
+        round: vwit::any_u64(),
+        payload: Vec::new(),
+        signature: Signature::default(),
+    };
+    b.payload.push(any_digest());
+    let vd = any_digest();
+    b.qc.votes.push((key(s), sig(s, &vd)));
+    let mut tc = TC { round: vwit::any_u64(), votes: Vec::new() };
+    tc.votes.push((key(s), sig(s, &vd), vwit::any_u64()));
+    b.tc = Some(tc);
+    b.signature = sig(a, &vd);
+    let bytes = bincode::serialize(&b).unwrap();
+    let b2: Block = bincode::deserialize(&bytes).unwrap();
+    assert!(b2.author == b.author && b2.round == b.round && b2.qc.hash == b.qc.hash && b2.qc.round == b.qc.round, "C20 block changed by the round trip");
+    assert!(b2.payload.len() == 1 && b2.payload[0] == b.payload[0], "C20 block payload changed by the round trip");
+    assert!(b2.qc.votes.len() == 1 && b2.qc.votes[0].0 == b.qc.votes[0].0 && b2.qc.votes[0].1.part1 == b.qc.votes[0].1.part1 && b2.qc.votes[0].1.part2 == b.qc.votes[0].1.part2, "C20 QC votes changed by the round trip");
+    match (&b2.tc, &b.tc) {
+        (Some(t2), Some(t)) => assert!(t2.round == t.round && t2.votes.len() == 1 && t2.votes[0].0 == t.votes[0].0 && t2.votes[0].2 == t.votes[0].2, "C20 TC changed by the round trip"),
+        _ => assert!(false, "C20 TC lost in the round trip"),
+    }
+    assert!(b2.signature.part1 == b.signature.part1 && b2.signature.part2 == b.signature.part2, "C20 block signature changed by the round trip");
+    assert!(b2.digest() == b.digest(), "C20 block digest changed by the round trip");
+    vwit::cover!(b.round > 5);
+    std::mem::forget((b, b2, bytes));
+}
